@@ -45,6 +45,7 @@ type Contract struct {
 	Trusted  bool // assumed, not verified (listed as assumption)
 	NoPanic  bool // generate implicit safety obligations
 	RealFloat bool // float64 treated as exact reals in this function's obligations
+	Logical  [][2]string // logical (universally quantified) variables: name, type text
 	AssumePure []string // callee expression texts whose calls (through function values) are assumed pure
 	Requires []*Clause
 	Ensures  []*Clause
@@ -93,7 +94,7 @@ type Contracts struct {
 	Scope   map[string]string // package path -> file whose imports are visible to spec/ghost/lemma declarations
 }
 
-var clauseHead = regexp.MustCompile(`^(scope|func|iface|realfloat|assume_pure|pure_heap|pure|inline|trusted|nopanic|requires|ensures|modifies|loop|capture|assert@|ghost|spec|global|lemma)\b`)
+var clauseHead = regexp.MustCompile(`^(scope|func|iface|realfloat|assume_pure|logical|pure_heap|pure|inline|trusted|nopanic|requires|ensures|modifies|loop|capture|assert@|ghost|spec|global|lemma)\b`)
 var labelRe = regexp.MustCompile(`^\[([^\]]+)\]\s*`)
 
 func parseContracts(repo string) (*Contracts, error) {
@@ -234,6 +235,12 @@ func (cs *Contracts) parseFile(file, pkgPath string) error {
 				cur.NoPanic = true
 			case "realfloat":
 				cur.RealFloat = true
+			case "logical":
+				f := strings.Fields(rest)
+				if len(f) != 2 {
+					return fmt.Errorf("%s:%d: logical <name> <type>", file, it.line)
+				}
+				cur.Logical = append(cur.Logical, [2]string{f[0], f[1]})
 			case "assume_pure":
 				cur.AssumePure = append(cur.AssumePure, strings.ReplaceAll(rest, " ", ""))
 			case "requires":
